@@ -2,7 +2,7 @@
    size, and the bit-or rewriter values. Statements are in Proto/RewriteSpec.v. *)
 From Verif Require Import Base.GoInt Proto.Ext Generated.ProtoGen Proto.PrimSpec Proto.PrimProofs
   Proto.RewriteModel Proto.RewriteSpec.
-From Coq Require Import Lia ZifyBool ZifyNat.
+From Coq Require Import Lia ZifyBool ZifyNat Znumtheory.
 Open Scope Z_scope.
 
 (* ------------------------------------------------------------------ *)
@@ -276,64 +276,6 @@ Qed.
 (* refutations by witness                                              *)
 (* ------------------------------------------------------------------ *)
 
-(* a MessageRewriter of 257 entries whose last entry is set: the seen-set has 256 bits and the
-   second loop indexes word 4 of 4 *)
-Lemma rewrite_no_panic_refuted : ~ rewrite_no_panic_statement.
-Proof.
-  intro H.
-  apply (H (RwMessage 257 [(256, RwRaw [])]) [] []).
-  - apply wf_message.
-    + split; [reflexivity|lia].
-    + constructor; [|constructor]. cbn [snd]. apply wf_raw. reflexivity.
-  - reflexivity.
-  - cbn. lia.
-  - vm_compute. reflexivity.
-Qed.
-
-(* the stored value 4 has zig-zag form 8; or-ed with mask 1 it is 9 and reads back as 9, not 5 *)
-Lemma bitor_zigzag_refuted : ~ bitor_zigzag_statement.
-Proof.
-  intro H. specialize (H 4 1).
-  assert (H1 : - 2 ^ 31 <= 4 < 2 ^ 31) by lia.
-  assert (H2 : - 2 ^ 31 <= 1 < 2 ^ 31) by lia.
-  specialize (H H1 H2). vm_compute in H. discriminate H.
-Qed.
-
-(* ------------------------------------------------------------------ *)
-(* the size of the seen-set                                            *)
-(* ------------------------------------------------------------------ *)
-
-Lemma makeFieldset_words_nonneg : forall m, 0 <= m ->
-  makeFieldset_words m = if m mod 64 =? 0 then m / 64 else (m + 1) / 64.
-Proof.
-  intros m Hm. unfold makeFieldset_words.
-  rewrite Z.rem_mod_nonneg, !Z.quot_div_nonneg by lia.
-  destruct (m mod 64 =? 0); reflexivity.
-Qed.
-
-Lemma seen_bits_spec : seen_bits_statement.
-Proof.
-  split.
-  - intros n Hn. unfold seen_bits.
-    destruct (n >=? 256) eqn:E.
-    + assert (n = 256) by lia. subst n. vm_compute. discriminate.
-    + lia.
-  - intros n Hn. unfold seen_bits.
-    replace (n >=? 256) with true by lia.
-    rewrite makeFieldset_words_nonneg by lia.
-    pose proof (Z.div_mod (n + 1) 64 ltac:(lia)) as Hdm.
-    pose proof (Z.mod_pos_bound (n + 1) 64 ltac:(lia)) as Hmb.
-    set (r := (n + 1) mod 64) in *. set (q := (n + 1) / 64) in *.
-    destruct (r =? 0) eqn:Er.
-    + split; intro; lia.
-    + assert (Hq : (n + 2) / 64 = if r =? 63 then q + 1 else q).
-      { destruct (r =? 63) eqn:E63.
-        - symmetry. apply (Z.div_unique _ _ _ 0); lia.
-        - symmetry. apply (Z.div_unique _ _ _ (r + 1)); lia. }
-      replace (n + 1 + 1) with (n + 2) by lia. rewrite Hq.
-      destruct (r =? 63) eqn:E63; split; intro; lia.
-Qed.
-
 (* ------------------------------------------------------------------ *)
 (* bit-or on two's complement integers stays in range                  *)
 (* ------------------------------------------------------------------ *)
@@ -387,24 +329,6 @@ Proof.
   destruct (v mod 2 ^ 32 <? 2 ^ 31) eqn:E; lia.
 Qed.
 
-Lemma bitor_value_spec : bitor_value_statement.
-Proof.
-  intros x mask. split; [|split; [|split]].
-  - intros Hx Hm. unfold bitor_value. apply w64_small. apply lor_range; lia.
-  - intros Hx Hm. unfold bitor_value. apply w64_small.
-    pose proof (lor_range x mask 32 ltac:(lia) Hx Hm). lia.
-  - intros Hx Hm. unfold bitor_value.
-    pose proof (lor_signed_range 63 x mask ltac:(lia) Hx Hm) as Hr.
-    rewrite s64_w64, !s64_small; [reflexivity|lia|rewrite s64_small; lia].
-  - intros Hx Hm. unfold bitor_value.
-    pose proof (lor_signed_range 31 x mask ltac:(lia) Hx Hm) as Hr.
-    rewrite s64_w64, s32_small by lia. apply s64_small. lia.
-Qed.
-
-(* ------------------------------------------------------------------ *)
-(* bit-or on a zig-zag field: what the code computes                   *)
-(* ------------------------------------------------------------------ *)
-
 Lemma s32_range : forall v, i32 (s32 v).
 Proof.
   intro v. unfold i32, s32, w32.
@@ -412,22 +336,73 @@ Proof.
   destruct (v mod 2 ^ 32 <? 2 ^ 31) eqn:E; lia.
 Qed.
 
-Lemma bitor_zigzag_actual : bitor_zigzag_actual_statement.
+
+(* ------------------------------------------------------------------ *)
+(* the seen-set is large enough for every length                       *)
+(* ------------------------------------------------------------------ *)
+
+Lemma makeFieldset_words_nonneg : forall n, 0 <= n -> 0 <= makeFieldset_words n.
+Proof. intros n Hn. unfold makeFieldset_words. apply Z.quot_pos; lia. Qed.
+
+Lemma seen_bits_spec : seen_bits_statement.
 Proof.
-  intros x mask Hx Hm. split.
-  - rewrite encodeZigZag32_zigzag by (unfold i32; lia).
-    assert (Hz : 0 <= zigzag x < 2 ^ 31).
-    { unfold zigzag. destruct (0 <=? x) eqn:E; lia. }
-    assert (Hu : u64 (zigzag x)) by (unfold u64; lia).
-    destruct (varint_length (zigzag x) Hu) as [Hl _].
-    pose proof (decodeVarint_encode (zigzag x) [] Hu) as Hd. rewrite app_nil_r in Hd.
-    unfold bitor_unmarshal. rewrite Hd.
-    replace (len (varint (zigzag x)) =? 0) with false by lia.
-    rewrite s64_small by lia.
-    replace ((zigzag x <? -2147483648) || (zigzag x >? 2147483647)) with false by lia.
-    replace (len (varint (zigzag x)) <? len (varint (zigzag x))) with false by lia.
-    reflexivity.
-  - unfold bitor_value.
-    destruct (zigzag32_spec (s32 (Z.lor (zigzag x) mask)) (s32_range _)) as [He [_ Hd]].
-    rewrite He, Hd. reflexivity.
+  intros n Hn. unfold seen_bits. destruct (n >=? 256) eqn:E; [|lia].
+  unfold makeFieldset_words. rewrite Z.quot_div_nonneg by lia.
+  pose proof (Z.div_mod (n + 1 + 63) 64 ltac:(lia)).
+  pose proof (Z.mod_pos_bound (n + 1 + 63) 64 ltac:(lia)). lia.
+Qed.
+
+(* ------------------------------------------------------------------ *)
+(* bit-or through the encoding of the field                            *)
+(* ------------------------------------------------------------------ *)
+
+Lemma s32_w64 : forall x, - 2 ^ 31 <= x < 2 ^ 31 -> s32 (w64 x) = x.
+Proof.
+  intros x Hx. unfold s32, w32, w64.
+  rewrite <- (Zmod_div_mod (2 ^ 32) (2 ^ 64) x) by (try lia; exists (2 ^ 32); reflexivity).
+  fold (w32 x). fold (s32 x). apply s32_small. exact Hx.
+Qed.
+
+Lemma bitor_roundtrip : bitor_roundtrip_statement.
+Proof.
+  intros k x mask Hx Hm.
+  destruct k; unfold kind_range, kind_go in Hx, Hm; unfold kind_range, kind_go, kind_enc, bitor_in, bitor_value, conv.
+  - (* int32 *)
+    pose proof (lor_signed_range 31 x mask ltac:(lia) Hx Hm) as Hr.
+    rewrite s32_w64 by exact Hx. rewrite s32_small by exact Hr. split; [reflexivity | exact Hr].
+  - (* int64 *)
+    pose proof (lor_signed_range 63 x mask ltac:(lia) Hx Hm) as Hr.
+    rewrite s64_w64, (s64_small x) by exact Hx. rewrite s64_small by exact Hr. split; [reflexivity | exact Hr].
+  - (* sint32 *)
+    pose proof (lor_signed_range 31 x mask ltac:(lia) Hx Hm) as Hr.
+    destruct (zigzag32_spec x Hx) as [_ [Hu Hd]].
+    rewrite w32_small by exact Hu. rewrite Hd, (s32_small x) by exact Hx. rewrite s32_small by exact Hr.
+    split; [apply encodeZigZag32_zigzag; exact Hr | exact Hr].
+  - (* sint64 *)
+    pose proof (lor_signed_range 63 x mask ltac:(lia) Hx Hm) as Hr.
+    destruct (zigzag64_spec x Hx) as [_ [Hu Hd]].
+    rewrite Hd, (s64_small x) by exact Hx. rewrite s64_small by exact Hr.
+    split; [apply encodeZigZag64_zigzag; exact Hr | exact Hr].
+  - (* uint32 *)
+    pose proof (lor_range x mask 32 ltac:(lia) Hx Hm) as Hr.
+    rewrite w32_small by exact Hx. split; [apply w64_small; lia | exact Hr].
+  - (* uint64 *)
+    pose proof (lor_range x mask 64 ltac:(lia) Hx Hm) as Hr.
+    rewrite (w64_small x) by exact Hx. split; [apply w64_small; exact Hr | exact Hr].
+  - (* fixed32 *)
+    pose proof (lor_range x mask 32 ltac:(lia) Hx Hm) as Hr.
+    rewrite (w32_small x) by exact Hx. split; [apply w32_small; exact Hr | exact Hr].
+  - (* fixed64 *)
+    pose proof (lor_range x mask 64 ltac:(lia) Hx Hm) as Hr.
+    rewrite (w64_small x) by exact Hx. split; [apply w64_small; exact Hr | exact Hr].
+  - (* sfixed32 *)
+    pose proof (lor_signed_range 31 x mask ltac:(lia) Hx Hm) as Hr.
+    destruct (zigzag32_spec x Hx) as [_ [Hu Hd]].
+    rewrite w32_small by exact Hu. rewrite Hd, (s32_small x) by exact Hx. rewrite s32_small by exact Hr.
+    split; [apply encodeZigZag32_zigzag; exact Hr | exact Hr].
+  - (* sfixed64 *)
+    pose proof (lor_signed_range 63 x mask ltac:(lia) Hx Hm) as Hr.
+    destruct (zigzag64_spec x Hx) as [_ [Hu Hd]].
+    rewrite Hd, (s64_small x) by exact Hx. rewrite s64_small by exact Hr.
+    split; [apply encodeZigZag64_zigzag; exact Hr | exact Hr].
 Qed.
